@@ -233,6 +233,14 @@ func init() {
 			return p.newError(StrC("key required"), nil)
 		}
 		k, v = append([]*Term(nil), k...), append([]*Term(nil), v...)
+		if p.hasSecret(sliceOfBytes(v)) {
+			p.natives["boltsecret"] = h.tx.db.path
+			for _, o := range p.fileOpens {
+				if o.Path == h.tx.db.path && o.Mode.IsConst() && (o.Mode.Val&^0o022)&0o077 != 0 {
+					p.natives["boltleak"] = h.tx.db.path
+				}
+			}
+		}
 		if i := p.boltFind(b, k); i >= 0 {
 			b.entries[i].v = v
 			return Iface{}
